@@ -37,9 +37,13 @@ EXHAUSTIVE = {'quick': False, 'thorough': False}
 
 # ------------------------------------------------------------------ Coq side
 LANES = 6
-COQ_PRELUDE = ''.join('Definition run_%s_b%d := run_%s.\n' % (k, i, k) for k in ('listby', 'groupby') for i in range(LANES))
+COQ_PRELUDE = ''.join('Definition run_%s_b%d := run_%s.\n' % (k, i, k) for k in ('listby', 'groupby') for i in range(LANES)) + \
+    ''.join('Definition run_%s2 {A} (c : (table * A) * (table * A)) : J := JL [run_%s (fst c); run_%s (snd c)].\n'.replace('{A}', '') .replace('A', ty) % (k, k, k)
+            for k, ty in (('listby', '(list colname)'), ('groupby', '(list colname)'), ('pivot', '(list colname * colname * colname * agg)'), ('pivot_only', '(list colname * colname * colname * agg)')))
 def coq_runner(case):
     k = case['kind']
+    if k == 'seq':
+        return coq_runner(dict(case, kind=case['op'])) + '2'
     if k == 'pivot':
         return 'run_pivot_only' if case.get('nounpivot') else 'run_pivot'
     if 'lane' in case:                       # large tables go to their own cases files so that they are evaluated in parallel
@@ -48,6 +52,8 @@ def coq_runner(case):
 
 AGG = {None: 'ANone', 'last': 'ALast', 'first': 'AFirst', 'len': 'ALen', 'sum': 'ASum'}
 def coq_case(case):
+    if case['kind'] == 'seq':
+        return '(%s, %s)' % (coq_case(dict(case, kind=case['op'])), coq_case(dict(case, kind=case['op'], cols=seq_after(case))))
     t = V.coq_table(case['cols'])
     if case['kind'] == 'pivot':
         return '(%s, ([%s], %s, %s, %s))' % (t, '; '.join(V.coq_name(c) for c in case['x']), V.coq_name(case['y']), V.coq_name(case['z']), AGG[case['agg']])
@@ -81,7 +87,39 @@ def stable_rows(t, cols, by, n):
     keys = [tuple(t[c][i] for c in by) for i in range(n)]
     return keys, sorted(range(n), key=functools.cmp_to_key(lambda i, j: cmp(keys[i], keys[j])))
 
+def seq_after(case):
+    return [[c, (case['assign']['cells'] if c == case['assign']['col'] else cells)] for c, cells in case['cols']]
+
+def impl_seq(case):
+    """ONE table object: op, op again, an in-place re-assignment of a column, op, op again.  Every result is judged against the table as it is NOW"""
+    nans = {}
+    t = V.make_table(case['cols'], nans)
+    f = {'listby': impl_listby, 'groupby': impl_groupby, 'pivot': impl_pivot}[case['op']]
+    def run(c):
+        cols = [x for x, _ in c['cols']]
+        before = ctable(t, nans)
+        r = f(c, t, cols, len(t), nans)
+        if r['viol'] is None and ctable(t, nans) != before:
+            r['viol'] = '%s modified its input table' % case['op']
+        return r
+    c1 = dict(case, kind=case['op'])
+    r1 = run(c1); r1b = run(c1)
+    a = case['assign']; new = [V.build(x, nans) for x in a['cells']]
+    if a['how'] == 'attr': setattr(t, a['col'], new)
+    else: t[a['col']] = new
+    c2 = dict(c1, cols=seq_after(case))
+    exp = ctable(V.make_table(c2['cols'], {}), {})
+    r2 = run(c2); r2b = run(c2)
+    viol = r1['viol'] or r2['viol']
+    if viol is None and (r1b['obs'] != r1['obs'] or r2b['obs'] != r2['obs'] or r1b['viol'] or r2b['viol']):
+        viol = '%s called twice on the same unchanged table gave different results: %s then %s' % (case['op'], (r1['obs'], r2['obs']), (r1b['obs'], r2b['obs']))
+    if viol is not None and viol is r2['viol']:
+        viol = 'after the in-place assignment of column %s: %s' % (a['col'], viol)
+    return {'status': 'ok', 'obs': [r1['obs'], r2['obs']], 'viol': viol}
+
 def impl(case):
+    if case['kind'] == 'seq':
+        return impl_seq(case)
     nans = {}
     t = V.make_table(case['cols'], nans)
     cols = [c for c, _ in case['cols']]; n = len(t)
@@ -257,6 +295,8 @@ def impl_pivot(case, t, cols, n, nans):
     return {'status': 'ok', 'obs': obs, 'viol': viol}
 
 def nontrivial(case, result):
+    if case['kind'] == 'seq':
+        return True
     cols = dict((c, cells) for c, cells in case['cols'])
     n = len(case['cols'][0][1]) if case['cols'] else 0
     if n < 2 or result.get('status') != 'ok':
@@ -267,6 +307,8 @@ def nontrivial(case, result):
 
 def shape(case):
     k = case['kind']
+    if k == 'seq':
+        return 'seq:%s:%s:%s' % (case['op'], 'key' if case['assign']['col'] in (case.get('by') or list(case.get('x', [])) + [case.get('y')]) else 'value', case['assign']['how'])
     if k == 'pivot':
         return 'pivot:x%d%s:%s%s' % (len(case['x']), 'list' if case.get('xlist') else '', case['agg'], (':floaty' if case.get('nounpivot') else '') + (':big' if case.get('big') else ''))
     return '%s:by%d/%d%s%s' % (k, len(case['by']), len(case['cols']), ':list' if case.get('bylist') else '', ':big' if 'lane' in case else '')
@@ -372,6 +414,30 @@ def gen_cases(rng, tier):
     for i in range(12 if q else 60):                      # large tables: more than 100 rows, few keys, heavy duplication
         cases.append(rand_big(rng, 'listby', i))
         cases.append(rand_big(rng, 'groupby', i))
+    for _ in range(360 if q else 3600):                   # sequences on ONE table object with an in-place column assignment in between
+        op = rng.choice(['listby', 'groupby', 'pivot'])
+        if op == 'pivot':
+            base = rand_pivot(rng, tier); keys = list(base['x']) + [base['y']]
+        else:
+            cols, modes, n = V.rand_table(rng, tier, 8)
+            names = [c for c, _ in cols]
+            if n == 0: cols = [[c, [['i', 1], ['i', 0]]] for c in names]
+            base = {'kind': op, 'cols': cols, 'by': rng.sample(names, rng.randrange(1, len(names)))}; keys = base['by']
+        names = [c for c, _ in base['cols']]; n = len(base['cols'][0][1])
+        col = rng.choice(keys) if rng.random() < 0.7 else rng.choice(names)
+        old = dict((c, cells) for c, cells in base['cols'])[col]
+        r = rng.random()
+        if op == 'pivot' and col == base['y']: new = [rng.choice(old + [['s', 'p'], ['s', 'q']]) for _ in range(n)]      # y values stay valid labels
+        elif op == 'pivot' and col == base['z'] and base['agg'] == 'sum': new = [['i', rng.randrange(0, 4)] for _ in range(n)]
+        elif r < 0.4: new = list(old); rng.shuffle(new)                      # same values, other rows
+        elif r < 0.7: new = [rng.choice(old) for _ in range(n)]
+        else: new = V.rand_column(rng, n, rng.choice(['ints', 'bin', 'strs', 'mixed', 'nums']))[1]
+        if op == 'pivot' and any(v is not None and v[0] == 'f' for v in (new if col == base['y'] else dict((c, cells) for c, cells in base['cols'])[base['y']])):
+            base['nounpivot'] = True
+        how = 'attr' if (col.isidentifier() and not hasattr(dict, col) and col not in ('columns', 'shape', 'self') and rng.random() < 0.4) else 'item'
+        case = dict(base, kind='seq', op=op, assign={'col': col, 'cells': new, 'how': how})
+        case.pop('lane', None)
+        cases.append(case)
     for i in range(6 if q else 30):                       # large pivots: few x keys and y labels, many rows per cell
         n = rng.randrange(101, 251)
         cols = [['name', [['i', rng.randrange(0, 4)] for _ in range(n)]], ['yy', [rng.choice([['s', 'am'], ['s', 'p'], ['i', 10], ['i', 9]]) for _ in range(n)]],
@@ -381,6 +447,15 @@ def gen_cases(rng, tier):
 
 def shrink(case):
     cols = case['cols']; n = len(cols[0][1]) if cols else 0
+    if case['kind'] == 'seq':                           # drop the same row from the table and from the assigned column
+        a = case['assign']
+        for i in range(n if n > 1 else 0):
+            yield dict(case, cols=[[c, cells[:i] + cells[i + 1:]] for c, cells in cols], assign=dict(a, cells=a['cells'][:i] + a['cells'][i + 1:]))
+        used = set(case.get('by', [])) | set(case.get('x', [])) | {case.get('y'), case.get('z'), a['col']}
+        for j, (c, _) in enumerate(cols):
+            if c not in used and len(cols) - 1 > len(case.get('by', [])):
+                yield dict(case, cols=cols[:j] + cols[j + 1:])
+        return
     size = n // 2
     while size >= 2:                                   # drop blocks of rows first (large tables), then single rows
         for i in range(0, n, size):
